@@ -40,63 +40,50 @@ func (i *index) Clear() {
 	i.refs = map[string]string{}
 }
 
+// setRef records that the item stored under key has the given index key,
+// keeping sortedKeys equal to the multiset of the refs values. An empty
+// indexKey means the item does not belong to the index (indexes are sparse).
+func (i *index) setRef(key, indexKey string) {
+	old, exists := i.refs[key]
+	if exists && old == indexKey {
+		return
+	}
+
+	if exists {
+		delete(i.refs, key)
+
+		pos := sort.SearchStrings(i.sortedKeys, old)
+		if pos < len(i.sortedKeys) && i.sortedKeys[pos] == old {
+			i.sortedKeys = append(i.sortedKeys[:pos], i.sortedKeys[pos+1:]...)
+		}
+	}
+
+	if indexKey == "" {
+		return
+	}
+
+	i.refs[key] = indexKey
+	i.sortedKeys = append(i.sortedKeys, indexKey)
+	sort.Strings(i.sortedKeys)
+}
+
 func (i *index) putData(key string, item map[string]*types.Item) error {
 	indexKey, err := i.keySchema.GetKey(i.Table.AttributesDef, item)
-	if err != nil || indexKey == "" {
+	if err != nil {
 		return err
 	}
 
-	_, exists := i.refs[key]
-
-	i.refs[key] = indexKey
-
-	if !exists {
-		i.sortedKeys = append(i.sortedKeys, indexKey)
-		sort.Strings(i.sortedKeys)
-	}
+	i.setRef(key, indexKey)
 
 	return nil
 }
 
 func (i *index) updateData(key string, item, oldItem map[string]*types.Item) error {
-	indexKey, err := i.keySchema.GetKey(i.Table.AttributesDef, item)
-	if err != nil || indexKey == "" {
-		return err
-	}
-
-	old := i.refs[key]
-	i.refs[key] = indexKey
-
-	if old != indexKey {
-		pos := sort.SearchStrings(i.sortedKeys, old)
-		if pos >= len(i.sortedKeys) {
-			i.sortedKeys = append(i.sortedKeys, indexKey)
-		} else {
-			i.sortedKeys[pos] = indexKey
-		}
-
-		sort.Strings(i.sortedKeys)
-	}
-
-	return nil
+	return i.putData(key, item)
 }
 
 func (i *index) delete(key string, item map[string]*types.Item) error {
-	delete(i.refs, key)
-
-	indexKey, err := i.keySchema.GetKey(i.Table.AttributesDef, item)
-	if err != nil || indexKey == "" {
-		return err
-	}
-
-	pos := sort.SearchStrings(i.sortedKeys, indexKey)
-	if pos == len(i.sortedKeys) {
-		return err
-	}
-
-	copy(i.sortedKeys[pos:], i.sortedKeys[pos+1:])
-	i.sortedKeys[len(i.sortedKeys)-1] = ""
-	i.sortedKeys = i.sortedKeys[:len(i.sortedKeys)-1]
+	i.setRef(key, "")
 
 	return nil
 }
